@@ -79,14 +79,17 @@ class Sim:
             H = importlib.import_module("dali.driver.hid")
             self.shim = sim.OsShim(w)
             H.os = self.shim
+            self.glob_shim = sim.GlobShim(self.shim)
+            H.glob = self.glob_shim
+            hid_path = "/dev/dali/hid*" if self.hid_kwargs.get("glob") else "/dev/dali/hid"
             if self.kind == "tridonic":
                 self.dev = sim.TridonicUsb(w, p, self.bus)
                 self.shim.add("/dev/dali/hid", self.dev)
-                self.driver = H.tridonic("/dev/dali/hid", dev_inst_map=self.dev_inst_map, **self.hid_kwargs)
+                self.driver = H.tridonic(hid_path, dev_inst_map=self.dev_inst_map, **self.hid_kwargs)
             else:
                 self.dev = sim.HassebUsb(w, p, self.bus)
                 self.shim.add("/dev/dali/hid", self.dev)
-                self.driver = H.hasseb("/dev/dali/hid", **self.hid_kwargs)
+                self.driver = H.hasseb(hid_path, **self.hid_kwargs)
             if self.register_callbacks:
                 self.driver.connection_status_callback.register(lambda d, s: self.status_events.append((w.now, s)))
                 self.driver.bus_traffic.register(lambda d, c, r, e: self.traffic.append((w.now, c, r, e)))
